@@ -16,12 +16,11 @@ def dLayout : Layout := { afterFactory := 1, afterGlobals := 1, afterInstance :=
 theorem dGlobalLines_eq (gl : List Spec.Name) : dGlobalLines gl = globalLines gl ++ (if gl = [] then [] else nls dLayout.afterHGlobals) := by
   cases gl <;> simp [dGlobalLines, globalLines, dLayout, nls]
 
-theorem dHandler_eq (s : Spec.Script) (h : Handler) (hf : FragH s h = true) : dHandler s h = prHandlerL dLayout s h := by
-  obtain ⟨hm, _⟩ := fragH_spec s h hf
+theorem dHandler_eq (s : Spec.Script) (h : Handler) (hm : h.isMethod = false) : dHandler s h = prHandlerL dLayout s h := by
   have hgl : hGlobalsSorted s h = hGlobals s h := rfl
   simp [dHandler, prHandlerL, prPre, hm, hgl, handlerKw, dGlobalLines_eq]
 
-theorem dHandlers_eq (s : Spec.Script) : ∀ (hs : List Handler), (∀ h ∈ hs, FragH s h = true) →
+theorem dHandlers_eq (s : Spec.Script) : ∀ (hs : List Handler), (∀ h ∈ hs, h.isMethod = false) →
     dHandlers s hs true = prHandlersL dLayout s hs ∧ (hs ≠ [] → dHandlers s hs false = .nl :: prHandlersL dLayout s hs)
   | [], _ => ⟨rfl, fun h => absurd rfl h⟩
   | [h], hf => by
@@ -45,16 +44,24 @@ theorem dHandlers_eq (s : Spec.Script) : ∀ (hs : List Handler), (∀ h ∈ hs,
     · intro _
       rw [e2, e, ih', e3]
 
-theorem dToks_eq (s : Spec.Script) (hf : FragScript s = true) : dToks s = printLingoL dLayout s := by
-  have hfac : s.factory = [] := (fragScript_spec s hf).1
-  have hH : ∀ h ∈ s.handlers, FragH s h = true := by
-    simp only [FragScript, Bool.and_eq_true, List.all_eq_true] at hf
-    exact hf.2
+theorem dToks_eqg (s : Spec.Script) (hfac : s.factory = []) (hH : ∀ h ∈ s.handlers, h.isMethod = false) :
+    dToks s = printLingoL dLayout s := by
   unfold dToks printLingoL prHeaderL
   rw [(dHandlers_eq s s.handlers hH).1]
   congr 1
   by_cases hp : s.props = [] <;> by_cases hg : s.globals = [] <;>
     simp [hp, hg, hfac, globalLines, dLayout, nls, List.length_pos_iff]
+
+theorem dToks_eq (s : Spec.Script) (hf : FragScript s = true) : dToks s = printLingoL dLayout s := by
+  have hfac : s.factory = [] := (fragScript_spec s hf).1
+  have hH : ∀ h ∈ s.handlers, FragH s h = true := by
+    simp only [FragScript, Bool.and_eq_true, List.all_eq_true] at hf
+    exact hf.2
+  exact dToks_eqg s hfac (fun h hh => (fragH_spec s h (hH h hh)).1)
+
+theorem dToks_eq_structured (s : Spec.Script) (hf : FragScriptX s = true) : dToks s = printLingoL dLayout s := by
+  simp only [FragScriptX, Bool.and_eq_true, List.all_eq_true, List.isEmpty_iff] at hf
+  exact dToks_eqg s hf.1.1.1 (fun h hh => (fragHX_spec s h (hf.2 h hh)).1)
 
 /-! ### a Boolean form of agent-lspec's fragment predicate (for the constructs of the link fragment) -/
 
@@ -65,6 +72,21 @@ theorem plainIdB_spec (n : Spec.Name) (h : plainIdB n = true) : PlainId n := by
   simp only [plainIdB, Bool.and_eq_true, Bool.not_eq_true', Option.isNone_iff_eq_none] at h
   obtain ⟨⟨⟨⟨h1, h2⟩, h3⟩, h4⟩, h5⟩ := h
   exact ⟨h1, h2, h3, h4, h5⟩
+
+def simpleIsKey (n : Spec.Name) : Bool := match theSimple n with | .key m => decide (m = n) | _ => false
+def simpleIsMovie (n : Spec.Name) : Bool := match theSimple n with | .movie m => decide (m = n) | _ => false
+
+theorem simpleIsKey_spec (n : Spec.Name) (h : simpleIsKey n = true) : theSimple n = .key n := by
+  unfold simpleIsKey at h
+  split at h
+  · rename_i m heq; rw [heq, of_decide_eq_true h]
+  · cases h
+
+theorem simpleIsMovie_spec (n : Spec.Name) (h : simpleIsMovie n = true) : theSimple n = .movie n := by
+  unfold simpleIsMovie at h
+  split at h
+  · rename_i m heq; rw [heq, of_decide_eq_true h]
+  · cases h
 
 mutual
 /-- `Spec.Frag env e`, decidable form -/
@@ -78,6 +100,9 @@ def fragEB (env : Env) : Expr → Bool
   | .field a => fragEB env a
   | .call f as => plainIdB f && !env.isVar f && fragLB env as
   | .list as => fragLB env as
+  | .the t k as => TheOk t k as.length && fragLB env as
+  | .key n => plainThe n && isObjectless n && simpleIsKey n
+  | .movie n => plainThe n && isObjectless n && simpleIsMovie n
   | _ => false
 def fragLB (env : Env) : List Expr → Bool
   | [] => true
@@ -117,9 +142,18 @@ theorem fragEB_spec (env : Env) : ∀ (e : Expr), fragEB env e = true → Spec.F
   | .me, h => by simp [fragEB] at h
   | .mcall _ _ _, h => by simp [fragEB] at h
   | .plist _, h => by simp [fragEB] at h
-  | .the _ _ _, h => by simp [fragEB] at h
-  | .key _, h => by simp [fragEB] at h
-  | .movie _, h => by simp [fragEB] at h
+  | .the t k as, h => by
+    simp only [fragEB, Bool.and_eq_true] at h
+    simp only [Spec.Frag]
+    exact ⟨h.1, fragLB_spec env as h.2⟩
+  | .key n, h => by
+    simp only [fragEB, Bool.and_eq_true] at h
+    simp only [Spec.Frag]
+    exact ⟨plainThe_spec n h.1.1, h.1.2, simpleIsKey_spec n h.2⟩
+  | .movie n, h => by
+    simp only [fragEB, Bool.and_eq_true] at h
+    simp only [Spec.Frag]
+    exact ⟨plainThe_spec n h.1.1, h.1.2, simpleIsMovie_spec n h.2⟩
   | .oprop _ _, h => by simp [fragEB] at h
   | .chunk _ _ _ _, h => by simp [fragEB] at h
 theorem fragLB_spec (env : Env) : ∀ (es : List Expr), fragLB env es = true → Spec.FragL env es
@@ -148,35 +182,74 @@ theorem lvB_spec (env : Env) (lv : Expr) (h : lvB env lv = true) : LvOk env lv :
     · cases h2
   | _ => simp [lvB] at h
 
+/-- loop variable of `repeat with`: a variable the environment classifies the way the tree does -/
+def varOkB (env : Env) : Expr → Bool
+  | .var k n => (match env.resolveVar n with | .var k' n' => decide (k' = k) && decide (n' = n) | _ => false)
+  | _ => false
+
+theorem varOkB_spec (env : Env) (v : Expr) (h : varOkB env v = true) : VarOk env v := by
+  cases v with
+  | var k n =>
+    simp only [varOkB] at h
+    refine ⟨n, rfl, ?_⟩
+    split at h
+    · rename_i k' n' heq
+      simp only [Bool.and_eq_true, decide_eq_true_eq] at h
+      rw [heq, h.1, h.2]
+    · cases h
+  | _ => simp [varOkB] at h
+
+mutual
 def fragSB (env : Env) : Stmt → Bool
   | .set lv v => lvB env lv && fragEB env v
   | .call f as => cmdName f && !(Tok.id f).kw "sound" && !(Tok.id f).kw "go" && !env.isVar f && fragLB env as
   | .exit => true
+  | .ifThen c t e => fragEB env c && fragSsB env t && fragSsB env e
+  | .repeatWhile c b => fragEB env c && fragSsB env b
+  | .repeatWith v a b _ body => varOkB env v && fragEB env a && fragEB env b && fragSsB env body
   | _ => false
-
 def fragSsB (env : Env) : List Stmt → Bool
   | [] => true
   | s :: ss => fragSB env s && fragSsB env ss
+end
 
-theorem fragSB_spec (env : Env) (s : Stmt) (h : fragSB env s = true) : Spec.FragS env s := by
-  cases s with
-  | set lv v =>
+mutual
+theorem fragSB_spec (env : Env) : ∀ (s : Stmt), fragSB env s = true → Spec.FragS env s
+  | .set lv v, h => by
     simp only [fragSB, Bool.and_eq_true] at h
     simp only [Spec.FragS]
     exact ⟨lvB_spec env lv h.1, fragEB_spec env v h.2⟩
-  | call f as =>
+  | .call f as, h => by
     simp only [fragSB, Bool.and_eq_true, Bool.not_eq_true'] at h
     simp only [Spec.FragS]
     exact ⟨Or.inr (Or.inr (Or.inr ⟨h.1.1.1.1, h.1.1.1.2, h.1.1.2, h.1.2⟩)), fragLB_spec env as h.2⟩
-  | exit => simp [Spec.FragS]
-  | _ => simp [fragSB] at h
-
+  | .exit, _ => by simp [Spec.FragS]
+  | .ifThen c t e, h => by
+    simp only [fragSB, Bool.and_eq_true] at h
+    simp only [Spec.FragS]
+    exact ⟨fragEB_spec env c h.1.1, fragSsB_spec env t h.1.2, fragSsB_spec env e h.2⟩
+  | .repeatWhile c b, h => by
+    simp only [fragSB, Bool.and_eq_true] at h
+    simp only [Spec.FragS]
+    exact ⟨fragEB_spec env c h.1, fragSsB_spec env b h.2⟩
+  | .repeatWith v a b d body, h => by
+    simp only [fragSB, Bool.and_eq_true] at h
+    simp only [Spec.FragS]
+    exact ⟨varOkB_spec env v h.1.1.1, fragEB_spec env a h.1.1.2, fragEB_spec env b h.1.2, fragSsB_spec env body h.2⟩
+  | .put .., h => by simp [fragSB] at h
+  | .delete _, h => by simp [fragSB] at h
+  | .hilite _, h => by simp [fragSB] at h
+  | .mcall .., h => by simp [fragSB] at h
+  | .tell .., h => by simp [fragSB] at h
+  | .repeatIn .., h => by simp [fragSB] at h
+  | .exitRepeat, h => by simp [fragSB] at h
 theorem fragSsB_spec (env : Env) : ∀ (ss : List Stmt), fragSsB env ss = true → Spec.FragSs env ss
   | [], _ => by simp [Spec.FragSs]
   | s :: ss, h => by
     simp only [fragSsB, Bool.and_eq_true] at h
     simp only [Spec.FragSs]
     exact ⟨fragSB_spec env s h.1, fragSsB_spec env ss h.2⟩
+end
 
 /-- `HandlersOk`, decidable form: every body is checked under the environment the reference reader builds for that handler
     from the printed tokens (parameters, declared globals, property names, handler names, assigned names) -/
@@ -205,6 +278,11 @@ theorem readOkB_spec (s : Spec.Script) (h : ReadOkB s = true) : ScriptOk dLayout
 
 theorem read_dToks (s : Spec.Script) (hf : FragScript s = true) (hr : ReadOkB s = true) : Spec.parseScript (dToks s) = some s := by
   rw [dToks_eq s hf]
+  exact rp_script dLayout s (readOkB_spec s hr)
+
+theorem read_dToks_structured (s : Spec.Script) (hf : FragScriptX s = true) (hr : ReadOkB s = true) :
+    Spec.parseScript (dToks s) = some s := by
+  rw [dToks_eq_structured s hf]
   exact rp_script dLayout s (readOkB_spec s hr)
 
 end Drx.Link
